@@ -204,7 +204,7 @@ fn opened_state(ad: &Dyn) -> Value {
     }
 }
 
-fn expect(h: &Hist, memo: &mut HashMap<u32, Expect>, mask: u32) -> Result<&Expect, String> {
+fn expect<'a>(h: &Hist, memo: &'a mut HashMap<u32, Expect>, mask: u32) -> Result<&'a Expect, String> {
     if !memo.contains_key(&mask) {
         let delivered = (0..h.n()).filter(|i| mask & (1 << i) != 0);
         let fresh = opened_state(&h.adapter_with(delivered)?);
